@@ -177,6 +177,22 @@ pub fn path(rng: &mut Rng, live: &[Vec<(char, Vec<u8>)>]) -> String {
     String::from_utf8_lossy(&s).into_owned()
 }
 
+/// is byte offset `i` inside a `{...}` parameter of the template text (escapes honoured)?
+fn inside_braces(t: &str, i: usize) -> bool {
+    let b = t.as_bytes();
+    let (mut k, mut depth) = (0, 0i32);
+    while k < i {
+        match b[k] {
+            b'\\' => k += 1,
+            b'{' => depth += 1,
+            b'}' => depth -= 1,
+            _ => {}
+        }
+        k += 1;
+    }
+    depth > 0 || (i > 0 && b[i - 1] == b'\\')
+}
+
 struct Hist {
     router: Router<u32>,
     live: Vec<(String, u32)>,
@@ -233,7 +249,21 @@ pub fn hist(rng: &mut Rng, histories: usize, family: bool, out: &mut Out) {
                     h.refresh();
                 }
             } else if k < 60 {
-                let t = rng.pick(&pool).clone();
+                // a template that is not live: from the pool, or a live template spelled differently
+                // (a redundant backslash before an ordinary character parses to the same parts)
+                let h = hs[r].as_ref().unwrap();
+                let t = if !h.live.is_empty() && rng.chance(1, 2) {
+                    let base = rng.pick(&h.live).0.clone();
+                    let cand: Vec<usize> = base.char_indices().filter(|(i, c)| *i > 0 && c.is_ascii_alphanumeric() && !inside_braces(&base, *i)).map(|(i, _)| i).collect();
+                    if cand.is_empty() {
+                        rng.pick(&pool).clone()
+                    } else {
+                        let i = *rng.pick(&cand);
+                        format!("{}\\{}", &base[..i], &base[i..])
+                    }
+                } else {
+                    rng.pick(&pool).clone()
+                };
                 out.delete(r, &t);
                 let h = hs[r].as_mut().unwrap();
                 if h.router.delete(&t).is_ok() {
